@@ -17,6 +17,8 @@ pub mod p_c03;
 pub mod p_c12;
 #[cfg(all(kani, feature = "c14"))]
 pub mod p_c14;
+#[cfg(all(kani, feature = "c16"))]
+pub mod p_c16;
 #[cfg(all(kani, feature = "c18"))]
 pub mod p_c18;
 #[cfg(all(kani, feature = "c19"))]
